@@ -6,6 +6,7 @@
 package main
 
 import (
+	"github.com/git-lfs/git-lfs/v3/tq"
 	"crypto/tls"
 	"encoding/base64"
 	"fmt"
@@ -367,9 +368,11 @@ func (w *rdWorld) exec(cs *rdCase, client *lfsapi.Client, helper *rdHelper) (tra
 			res, err = client.DoAPIRequestWithAuth("origin", req)
 		case "header":
 			// a storage request with the header a batch action supplied for the start node's host
-			req, _ := http.NewRequest("GET", apiURL+"/obj", nil)
-			req.Header.Set("Authorization", "Basic "+base64.StdEncoding.EncodeToString([]byte("u|"+strings.ReplaceAll(w.label(start.L), ":", "~")+":pw")))
-			res, err = client.Do(req)
+			// … built and sent the way the basic transfer adapters do (tq.VerifStorageRequest: newHTTPRequest +
+			// doHTTP), with the header NAME spelled as a server may spell it (HTTP header names are case-insensitive)
+			name := []string{"Authorization", "authorization", "AUTHORIZATION", "aUTHORIZATIOn"}[cs.ID%4]
+			rel := &tq.Action{Href: apiURL + "/obj", Header: map[string]string{name: "Basic " + base64.StdEncoding.EncodeToString([]byte("u|"+strings.ReplaceAll(w.label(start.L), ":", "~")+":pw"))}}
+			res, err = tq.VerifStorageRequest(client, "origin", tq.Download, "GET", rel, strings.Repeat("ab", 32), true)
 		default:
 			req, _ := http.NewRequest("GET", apiURL+"/obj", nil)
 			res, err = client.DoWithAuth("origin", client.Endpoints.AccessFor(cfgURL), req)
